@@ -146,7 +146,7 @@ def pickNear (ds : List Rat) (hint : Option Nat) : Nat :=
   | none => b
   | some h =>
     match ds[h]?, ds[b]? with
-    | some dh, some db => if cmpLe dh db = .free then h else b
+    | some dh, some db => if (cmpLe dh db).isFree then h else b
     | _, _ => b
 
 def clipRat (x lo hi : Rat) : Rat := if x < lo then lo else if hi < x then hi else x
